@@ -8,7 +8,12 @@
       C  with gRPC queries, CheckTx (valid and invalid), Simulate and
          PrepareProposal/ProcessProposal interleaved between blocks; the
          generator's dry runs and the observer's reads also go to this replica;
-      D  a second quiet node (fresh application run afterwards, no reads at all).
+      D  a second quiet node (fresh application run afterwards, no reads at all);
+      E  (half of the cases) restarted from its database exactly once, at a random
+         boundary: memory built up over several blocks is lost only then.
+    In a third of the cases CSR is disabled in genesis and enabled by governance
+    during the history, so that csr's BeginBlock deploys the Turnstile inside a
+    block ([b_fresh] is the address it yields).
     Per block it records, for each replica, the AppHash and the transaction
     results (as indices into the case's table of distinct byte strings: equal
     index <-> equal bytes), the hash of the exported genesis at the heights
@@ -46,7 +51,7 @@ Record cobs := mkCObs {
 Record block_obs := mkBO {
   bo_blk : blk;
   bo_height : Z;
-  bo_hash : list Z;                 (* AppHash index of replicas A B C D *)
+  bo_hash : list Z;                 (* AppHash index of replicas A B C (E) D *)
   bo_results : list (list Z);       (* per replica: per transaction, index of (code, codespace, data, gas wanted, gas used) *)
   bo_export : list Z;               (* export hash index of every replica that exported at this height *)
   bo_codes : list bool;             (* accepted (identical on all replicas by monitor 11) *)
